@@ -1,9 +1,265 @@
-import Model.Common
-/-! Oracle handlers for C04 (stub until the property's model exists). -/
+import Oracle.C06
+/-! Oracle handler for C04 (tombstones block resurrection and are never shown). Same histories and
+line format as C06 (`harness/cmd/corr/c06.go`, command `C04.run`): the diff is the replay on the node
+model of `Model/C06.lean`; the judge evaluates the C04 statement on the implementation's own
+observations (store snapshots incl. tombstones, `Get` views, watcher callbacks, gossip batches,
+`LocalState` contents). -/
 namespace OracleC04
-open Common
+open Common Ring C06 OracleC06
 
-def handle (_cmd : String) (_f : List String) : String × String × String :=
-  ("unknown-cmd", "-", "-")
+/-- the replicated entries of a value: (name, timestamp, is-tombstone, full text) -/
+def ents : Val → List (String × Int × Bool × String)
+  | .ring d => d.map fun i => ("i:" ++ i.id, i.ts, i.state == .LEFT, showInst i)
+  | .part p =>
+    (p.parts.map fun x => (s!"p:{x.id}", x.stateTs, x.state == C03P.partDeleted, C03P.showPart x)) ++
+    (p.owners.map fun o => ("o:" ++ o.id, o.ts, o.state == C03P.ownerDeleted, C03P.showOwner o))
+
+def findEnt (l : List (String × Int × Bool × String)) (name : String) : Option (Int × Bool) :=
+  (l.find? (·.1 == name)).map fun x => (x.2.1, x.2.2.1)
+
+/-- retained-tombstone bookkeeping: (node, key, entry name) ↦ timestamp of the tombstone -/
+abbrev Tombs := List ((Nat × String × String) × Int)
+
+def tombGet (t : Tombs) (k : Nat × String × String) : Option Int := (t.find? (·.1 == k)).map (·.2)
+def tombSet (t : Tombs) (k : Nat × String × String) (v : Int) : Tombs :=
+  match t with
+  | [] => [(k, v)]
+  | (k', v') :: r => if k' == k then (k, v) :: r else (k', v') :: tombSet r k v
+
+structure J where
+  bad : List String := []
+  tombs : Tombs := []
+  prev : List (Nat × Store Val) := []           -- last observed store per node
+  fwd : List (Nat × String × String × Int) := []  -- tombstones created by a local update, not yet seen in a gossip batch
+  pool : List (Msg Val) := []
+  idx : Nat := 0                                  -- index of the current event
+  prod : List ((String × String × Int) × Nat) := []     -- (key, entry, timestamp) ↦ event that produced this entry version
+  created : List ((String × String × Int) × Nat) := []  -- (key, entry, tombstone timestamp) ↦ first removal event that created it
+  nTomb : Nat := 0
+  nBlocked : Nat := 0
+  nSame : Nat := 0
+  nStripped : Nat := 0
+
+def J.flag (j : J) (s : String) : J := { j with bad := s :: j.bad }
+
+def prevStore (j : J) (n : Nat) : Store Val := ((j.prev.find? (·.1 == n)).map (·.2)).getD []
+def setPrev (j : J) (n : Nat) (st : Store Val) : J :=
+  { j with prev := (n, st) :: j.prev.filter (·.1 != n) }
+
+/-- one observed snapshot of node `n` at clock reading `tn` -/
+def checkSnap (conf : Conf) (j : J) (n : Nat) (tn : Int) (sn : Snap) : J := Id.run do
+  let mut j := j
+  -- (a) readers: the value returned by Get has no tombstone and is the stored value minus tombstones
+  for (k, e) in sn.store do
+    let es := ents e.val
+    match lookup sn.view k with
+    | none => j := j.flag "get-missing-key"
+    | some v =>
+      let vs := ents v
+      if vs.any (·.2.2.1) then j := j.flag s!"tombstone-visible-to-reader:{k}"
+      let want := sortStr ((es.filter fun x => !x.2.2.1).map (·.2.2.2))
+      if sortStr (vs.map (·.2.2.2)) != want then j := j.flag s!"reader-view-differs-from-store-minus-tombstones:{k}"
+      if es.any (·.2.2.1) then j := { j with nStripped := j.nStripped + 1 }
+    -- (b) no resurrection while the tombstone is retained
+    for (name, ts, tomb, _) in es do
+      match tombGet j.tombs (n, k, name) with
+      | some t =>
+        -- the entry version now visible was produced before the removal whose tombstone the node holds
+        if !tomb ∧ !conf.skew then
+          match (j.prod.find? (·.1 == (k, name, ts))).map (·.2), (j.created.find? (·.1 == (k, name, t))).map (·.2) with
+          | some i, some c => if i < c then j := j.flag s!"resurrected-by-earlier-message:{k}/{name}"
+          | _, _ => pure ()
+        if !tomb ∧ ts ≤ t then j := j.flag s!"resurrected:{k}/{name}"
+        if tomb ∧ ts < t then j := j.flag s!"tombstone-regressed:{k}/{name}"
+        if tomb ∧ ts > t then j := { j with tombs := tombSet j.tombs (n, k, name) ts }
+        if !tomb ∧ ts > t then j := { j with tombs := j.tombs.filter (·.1 != (n, k, name)) }
+      | none =>
+        if tomb then j := { j with tombs := tombSet j.tombs (n, k, name) ts, nTomb := j.nTomb + 1 }
+  -- (c) tombstones are discarded only once older than the retention
+  for ((n', k, name), t) in j.tombs do
+    if n' == n then
+      let present := match getE sn.store k with
+        | some e => (findEnt (ents e.val) name).isSome
+        | none => false
+      if !present then
+        if conf.lit == 0 ∨ t ≥ tn - conf.lit + 2 then j := j.flag s!"tombstone-discarded-before-retention:{k}/{name}"
+        j := { j with tombs := j.tombs.filter (·.1 != (n', k, name)) }
+  return setPrev j n sn.store
+
+def isTombVal (s : String) : Bool :=
+  match s.splitOn "^" with
+  | [kind, body] => match parseVal kind body with
+    | some v => (ents v).any (·.2.2.1)
+    | none => false
+  | _ => false
+
+/-- does delivering `m` to node `n` try to bring back an entry whose tombstone the node holds? -/
+def attempts (j : J) (n : Nat) (m : Msg Val) : Nat × Nat :=
+  (ents m.val).foldl (fun (a, b) (name, ts, tomb, _) =>
+    match tombGet j.tombs (n, m.key, name) with
+    | some t => if !tomb ∧ ts ≤ t then (a + 1, if ts == t then b + 1 else b) else (a, b)
+    | none => (a, b)) (0, 0)
+
+/-- after node `n` received message `m`: every removal the message carries must have taken effect,
+i.e. no entry version produced before that removal is still shown by the node -/
+def learned (conf : Conf) (j : J) (m : Msg Val) (sn : Snap) : J := Id.run do
+  let mut j := j
+  if conf.skew then return j
+  for (name, t, tomb, _) in ents m.val do
+    if tomb then
+      match (j.created.find? (·.1 == (m.key, name, t))).map (·.2), getE sn.store m.key with
+      | some c, some e =>
+        match findEnt (ents e.val) name with
+        | some (ts, false) =>
+          match (j.prod.find? (·.1 == (m.key, name, ts))).map (·.2) with
+          | some i => if i < c then j := j.flag s!"still-shown-after-learning-of-removal:{m.key}/{name}"
+          | none => pure ()
+        | _ => pure ()
+      | _, _ => pure ()
+  return j
+
+def judge (conf : Conf) (evs obs : List String) : J := Id.run do
+  let mut j : J := {}
+  for (ev, ob) in evs.zip obs do
+    j := { j with idx := j.idx + 1 }
+    let e := ev.splitOn "!"
+    let o := ob.splitOn "!"
+    if ob.startsWith "PANIC" then
+      j := j.flag "panic"
+      continue
+    let tn : Int := (o.headD "0").toInt?.getD 0
+    match e, o with
+    | ["cas", n, key, ops], [t0, tn', res, snap] =>
+      match n.toNat?, tn'.toInt?, parseSnap snap with
+      | some n, some tn, some sn =>
+        -- which entry versions this update produced, and which removals it performed
+        let t0 := t0.toInt?.getD 0
+        for op in (ops.splitOn "+").filterMap parseOp do
+          let pr : Option (String × Int) := match op with
+            | .hb id d _ _ => some ("i:" ++ id, t0 - d)
+            | .pa pid d _ => some (s!"p:{pid}", t0 - d)
+            | .oa oid d _ _ => some ("o:" ++ oid, t0 - d)
+            | _ => none
+          match pr with
+          | some (name, ts) => if (j.prod.find? (·.1 == (key, name, ts))).isNone then j := { j with prod := ((key, name, ts), j.idx) :: j.prod }
+          | none => pure ()
+          let rm : Option String := match op with
+            | .rm id => some ("i:" ++ id)
+            | .pr pid => some s!"p:{pid}"
+            | .orm oid => some ("o:" ++ oid)
+            | _ => none
+          match rm with
+          | some name =>
+            let before := match getE (prevStore j n) key with | some e => findEnt (ents e.val) name | none => none
+            let after := match getE sn.store key with | some e => findEnt (ents e.val) name | none => none
+            match before, after with
+            | some (_, false), some (t, true) =>
+              if (j.created.find? (·.1 == (key, name, t))).isNone then j := { j with created := ((key, name, t), j.idx) :: j.created }
+            | _, _ => pure ()
+          | none => pure ()
+        -- tombstones this local update created must be forwarded (checked at the node's next gossip)
+        if res == "ok" then
+          let before := match getE (prevStore j n) key with | some e => ents e.val | none => []
+          let after := match getE sn.store key with | some e => ents e.val | none => []
+          for (name, ts, tomb, _) in after do
+            if tomb ∧ findEnt before name != some (ts, true) ∧ (conf.lit == 0 ∨ ts ≥ tn - conf.lit + 2) then
+              j := { j with fwd := (n, key, name, ts) :: j.fwd }
+        j := checkSnap conf j n tn sn
+      | _, _, _ => j := j.flag "unparsable-observation"
+    | ["g", n], [_, msgs, _] =>
+      match n.toNat? with
+      | some n =>
+        let ms := (if msgs == "-" then [] else msgs.splitOn "|").filterMap parseMsg
+        for (n', key, name, ts) in j.fwd do
+          if n' == n then
+            let carried := ms.any fun m => m.key == key && match findEnt (ents m.val) name with
+              | some (ts', tomb') => ts' > ts || (ts' == ts && tomb')
+              | none => false
+            if !carried then j := j.flag s!"tombstone-not-forwarded:{key}/{name}"
+        j := { j with fwd := j.fwd.filter (·.1 != n), pool := j.pool ++ ms }
+      | none => pure ()
+    | ["d", n, m], [_, snap] =>
+      match n.toNat?, m.toNat?, parseSnap snap with
+      | some n, some m, some sn =>
+        match j.pool[m]? with
+        | some msg =>
+          let (a, b) := attempts j n msg
+          j := { j with nBlocked := j.nBlocked + a, nSame := j.nSame + b }
+          if !msg.key.isEmpty then j := learned conf j msg sn
+        | none => pure ()
+        j := checkSnap conf j n tn sn
+      | _, _, _ => j := j.flag "unparsable-observation"
+    | ["x", n, _, _, _], [_, _, _, _, after] =>
+      match n.toNat?, parseSnap after with
+      | some n, some sn => j := checkSnap conf j n tn sn
+      | _, _ => j := j.flag "unparsable-observation"
+    | ["pp", a, b], [_, pairs, storeA, snapB] =>
+      match a.toNat?, b.toNat?, parseSnap snapB with
+      | some _, some b, some sn =>
+        let ps := if pairs == "-" then [] else pairs.splitOn "|"
+        -- the full-state message carries every stored entry, tombstones included
+        if storeA != "-" then
+          for en in storeA.splitOn "|" do
+            match en.splitOn "=" with
+            | [k, rest] =>
+              match rest.splitOn "^" with
+              | _ :: tail => if !ps.contains ("ok:" ++ k ++ "=" ++ "^".intercalate tail) then j := j.flag s!"full-state-message-lacks-stored-content:{k}"
+              | [] => pure ()
+            | _ => pure ()
+        for p in ps do
+          if p.startsWith "ok:" then
+            match parseMsg (p.drop 3).toString with
+            | some msg =>
+              let (x, y) := attempts j b msg
+              j := { j with nBlocked := j.nBlocked + x, nSame := j.nSame + y }
+              j := learned conf j msg sn
+            | none => pure ()
+        j := checkSnap conf j b tn sn
+      | _, _, _ => j := j.flag "unparsable-observation"
+    | ["ppx", _, b, _, _], [_, _, _, snapB] =>
+      match b.toNat?, parseSnap snapB with
+      | some b, some sn => j := checkSnap conf j b tn sn
+      | _, _ => j := j.flag "unparsable-observation"
+    | ["rs", n], _ =>
+      match n.toNat? with
+      | some n => j := { j with tombs := j.tombs.filter (·.1.1 != n), fwd := j.fwd.filter (·.1 != n), prev := j.prev.filter (·.1 != n) }
+      | none => pure ()
+    | [w, n, _], [_, snap] =>
+      if w == "w" ∨ w == "wp" ∨ w == "del" then
+        match n.toNat?, parseSnap snap with
+        | some n, some sn => j := checkSnap conf j n tn sn
+        | _, _ => j := j.flag "unparsable-observation"
+    | [k], _ =>
+      if k == "st" ∨ k == "fin" then
+        let snaps := (o.drop 1).take conf.n
+        let mut i := 0
+        for s in snaps do
+          match parseSnap s with
+          | some sn => j := checkSnap conf j i tn sn
+          | none => j := j.flag "unparsable-observation"
+          i := i + 1
+        -- watchers are never handed a tombstone
+        for (_, _, calls) in parseWLogs (o.getLastD "-") do
+          for (k, v) in calls do
+            if isTombVal v then j := j.flag s!"tombstone-shown-to-watcher:{k}"
+    | _, _ => pure ()
+  return j
+
+def handleRun (f : List String) : String × String × String :=
+  match f with
+  | [cfg, evs, obs] =>
+    let conf := parseConf cfg
+    let evs := evs.splitOn " "
+    let obs := obs.splitOn " "
+    if evs.length != obs.length then ("event-observation-count", "-", "-") else
+    let (_, d) := replay conf evs obs
+    let j := judge conf evs obs
+    let bad := j.bad.eraseDups
+    let tags := s!"n={conf.n} tomb={bucket j.nTomb} blocked={bucket j.nBlocked} samesec={bucket j.nSame} stripped={bucket j.nStripped} lit={conf.lit} gc={bit conf.gc} skew={bit conf.skew} sl={bucket (countEv evs "sl")} rs={bucket (countEv evs "rs!")}"
+    (d.getD "-", if bad.isEmpty then "-" else ",".intercalate bad, tags)
+  | _ => ("bad-fields", "-", "-")
+
+def handle (cmd : String) (f : List String) : String × String × String :=
+  if cmd == "C04.run" then handleRun f else ("unknown-cmd", "-", "-")
 
 end OracleC04
